@@ -54,6 +54,9 @@ func (s *Service) HandleHeadEvent(event *apiv1.Event) {
 	s.log.Trace().Uint64("slot", uint64(data.Slot)).Msg("Received head event")
 
 	if data.Slot != s.chainTimeService.CurrentSlot() {
+		// The records tidied up below are made by the clock, whichever head the beacon
+		// node reports, so a node that reports its heads late must not stop the tidying.
+		s.removeOldRecords()
 		return
 	}
 
@@ -100,6 +103,23 @@ func (s *Service) HandleHeadEvent(event *apiv1.Event) {
 	// verified, so it needs to be tidied up in that case as well.
 	if !s.verifySyncCommitteeInclusion && s.syncCommitteeMessenger != nil && data.Slot == s.chainTimeService.CurrentSlot() {
 		s.syncCommitteeMessenger.RemoveHistoricDataUsedForSlotVerification(data.Slot)
+	}
+}
+
+// removeOldRecords removes subscription information and sync committee slot data that
+// is out of date by the clock.
+func (s *Service) removeOldRecords() {
+	currentEpoch := s.chainTimeService.CurrentEpoch()
+	s.subscriptionInfosMutex.Lock()
+	for subscriptionEpoch := range s.subscriptionInfos {
+		if subscriptionEpoch+2 <= currentEpoch {
+			delete(s.subscriptionInfos, subscriptionEpoch)
+		}
+	}
+	s.subscriptionInfosMutex.Unlock()
+
+	if s.syncCommitteeMessenger != nil {
+		s.syncCommitteeMessenger.RemoveHistoricDataUsedForSlotVerification(s.chainTimeService.CurrentSlot())
 	}
 }
 
